@@ -9,8 +9,9 @@ name = sys.argv[1]
 src = os.path.join(os.environ.get("SEED_DIR", "/tmp/seed/out"), name)
 prop = name.split("-")[0]
 checks = sys.argv[2:] or [prop]
-# second wave (SEED_WAVE=2): a/b are stored as c/d
-dst_name = name if os.environ.get("SEED_WAVE", "1") == "1" else prop + "-" + {"a": "c", "b": "d"}[name.split("-")[1]]
+# second / third wave (SEED_WAVE=2 / 3): a/b are stored as c/d resp. e/f
+wave = os.environ.get("SEED_WAVE", "1")
+dst_name = name if wave == "1" else prop + "-" + {"2": {"a": "c", "b": "d"}, "3": {"a": "e", "b": "f"}}[wave][name.split("-")[1]]
 d = tempfile.mkdtemp(prefix="seedeval-", dir="/var/tmp")
 subprocess.run(["rsync", "-a", "--exclude", ".git", "--exclude", "__pycache__", "/repo/", d + "/"], check=True)
 env = dict(os.environ, PYTHONPATH=d, KCONFIG_REPORT_VERBOSITY="quiet")
